@@ -112,7 +112,7 @@ class Gen:
         base_w = {
             "compile_str": 5.0, "compile_callable": 1.5, "compile_defs": 2.5, "compile_param": 1.2, "param_defs": 1.0,
             "to_logicfun": 0.8, "bind": 3.0, "oraclize": 2.0, "algo": 3.0, "secret_oracle": 0.4,
-            "export": 2.0, "decompile": 1.0, "truth_table": 1.5, "header": 0.3, "repr": 0.3, "again": 1.5, "forget": 0.8, "canary": 1.2, "variant": 0.8, "recompile": 0.6, "decode": 0.5,
+            "export": 2.0, "decompile": 1.0, "truth_table": 1.5, "header": 0.3, "repr": 0.3, "again": 1.5, "forget": 0.8, "canary": 1.2, "variant": 0.8, "recompile": 0.6, "decode": 0.5, "custom": 0.35,
         }
         # swarm: every run disables / boosts a random subset of op kinds
         self.w = {k: v * r.choice([0, 0.5, 1, 1, 2, 3]) for k, v in sorted(base_w.items())}
@@ -241,17 +241,6 @@ class Gen:
                     pass
         a = {"src": src}
         a.update(self.copts())
-        if not callable_ and not rejected and r.random() < 0.04:
-            # a program over a user-defined type, with (or, as F1, without) types=[...]
-            w = r.choice([9, 10, 11])
-            i, j = r.randrange(w), r.randrange(w)
-            src = f"def {name}(a: Qint{w}) -> bool:\n    return a[{i}] ^ (not a[{j}])\n"
-            meta = {"id": "custom", "nargs": 1, "in_bits": w, "ret_bool": True, "argsig": None, "retsig": "bool", "t": 0.01, "outcome": "ok"}
-            a["src"] = src
-            if not (self.arm == "reject" and r.random() < 0.3):
-                a["types"] = [f"Qint{w}"]
-            else:
-                rejected = True
         if "compiler" in a and not rejected:
             rejected, clean_src = True, src
         if callable_:
@@ -527,6 +516,34 @@ class Gen:
         self.ops[oid]["canary"] = ci
         return True
 
+    def custom_ops(self, w, with_types=True):
+        """(pick, differ, probe) op descriptors around a user-defined type Qint<w>"""
+        tn = f"Qint{w}"
+        base = {"opt": "default", "uncompute": True, "to_compile": True, "defs": []}
+        pick = dict(base, src=f"def pick(a: bool) -> {tn}:\n    return {tn}(1) if a else {tn}(2)\n", via="plain", defines=[tn], types=[tn])
+        differ = dict(base, src="def differ(p0: bool) -> bool:\n    return pick(p0) == pick(not p0)\n", via="qlassf")
+        probe = dict(base, src=f"def probe(v: {tn}) -> bool:\n    return v[0] and v[{w - 1}]\n", via="plain", defines=[tn], types=[tn] if with_types else [])
+        return pick, differ, probe
+
+    def b_custom(self, s):
+        """user-defined types: a function returning one, a caller that never names it, a program that
+        names it and is compiled with or (F1) without types=[...]"""
+        r = self.r
+        w = r.choice([9, 10, 11])
+        pick, differ, probe = self.custom_ops(w, with_types=r.random() < 0.5)
+        pid = None
+        if r.random() < 0.8:
+            pid = self.add("compile_callable", pick, [], s, "qf", {"id": "custom", "nargs": 1, "in_bits": 1, "ret_bool": False, "argsig": None, "retsig": None, "compiled": True}, "pick")
+            self.note_name("pick", pick["src"])
+        if pid is not None and r.random() < 0.8:
+            d = dict(differ, defs=[pid])
+            self.add("compile_str", d, [pid], s, "qf", {"id": "custom", "nargs": 1, "in_bits": 1, "ret_bool": True, "argsig": [["p0", "bool"]], "retsig": "bool", "compiled": True}, "differ")
+            self.note_name("differ", differ["src"])
+        if r.random() < 0.8:
+            self.add("compile_callable", probe, [], s, "qf" if probe["types"] else "none", {"id": "custom", "nargs": 1, "in_bits": w, "ret_bool": True, "argsig": None, "retsig": "bool", "compiled": True}, "probe")
+            self.note_name("probe", probe["src"])
+        return True
+
     def b_recompile(self, s):
         """qf.compile(...) again: a legitimate in-place change of the caller's own object"""
         c = self.cands(lambda e: e["rk"] == "qf" and e["meta"].get("argsig") is not None)
@@ -680,6 +697,33 @@ def make_canaries(batch_seed, tier):
                 nops[p]["rk"], nops[p]["meta"], nops[p]["name"] = rk, meta, name
             out.append({"ops": nops, "key": key})
             want[k] -= 1
+    # probes by construction: programs whose argument names are (near-)names the library generates
+    # itself, exported as text; and programs over a user-defined type compiled WITHOUT types=[...]
+    def cs(i, src, **kw):
+        a = {"src": src, "opt": "default", "uncompute": True, "to_compile": True, "via": "qlassf", "defs": []}
+        a.update(kw)
+        return {"id": i, "kind": "compile_str", "a": a, "uses": [], "s": 0, "rk": "qf", "meta": {"id": "probe", "compiled": True, "in_bits": 3, "nargs": 2}, "name": progs.fname(src)}
+
+    clash = [
+        "def p(anc: Qint[2], b: bool) -> bool:\n    return (anc == 1 or b) and (anc[0] or not b)\n",
+        "def h(a_0: bool, a: Qint[2]) -> bool:\n    return a_0 and a == 2\n",
+        "def g(x0: bool, b: bool, c: bool) -> bool:\n    return (x0 or b) and (b or c) and not (x0 and c)\n",
+        "def f(q0: bool, q1: Qint[2]) -> bool:\n    return q0 ^ (q1 == 1)\n",
+    ]
+    for src in clash:
+        for fw, mode in (("qasm", "circuit"), ("qasm", "gate")):
+            ops_ = [cs(0, src), {"id": 1, "kind": "export", "a": {"target": 0, "fw": fw, "mode": mode}, "uses": [0], "s": 0, "rk": "none", "meta": None, "name": None}]
+            key = digest([{k: x for k, x in o.items() if k not in ("rk", "meta", "name")} for o in ops_], 16)
+            if key not in seen:
+                seen.add(key)
+                out.append({"ops": ops_, "key": key})
+    gc_ = Gen(int(digest(["canary-custom", batch_seed], 15), 16), tier)
+    for w in (9, 10, 11):
+        pick, differ, probe = gc_.custom_ops(w, with_types=False)
+        ops_ = [{"id": 0, "kind": "compile_callable", "a": probe, "uses": [], "s": 0, "rk": "none", "meta": None, "name": "probe"}]
+        key = digest([{k: x for k, x in o.items() if k not in ("rk", "meta", "name")} for o in ops_], 16)
+        seen.add(key)
+        out.append({"ops": ops_, "key": key})
     # variants: the same closure with ONE compile option of its first op flipped -- a process that
     # remembers a translation by source text, name or callee name (and not by everything that
     # determines it) gives one of the two the other's result
@@ -799,10 +843,14 @@ def _compile_callable(op, a, objs, tmpdir):
     name = progs.fname(a["src"])
     defs = [objs[i] for i in a.get("defs", [])]
     hdr = "from __future__ import annotations\nfrom qlasskit import *\nfrom typing import Tuple, List\n"
+    # user-defined types live in the user's module, as in test/utils.py (class Qint14(QintImp): BIT_SIZE = 14)
+    for tn in a.get("defines", []):
+        hdr += f"from qlasskit.types.qint import QintImp\nclass {tn}(QintImp):\n    BIT_SIZE = {int(tn[4:])}\n"
+    tlist = "[" + ", ".join(a.get("types", [])) + "]"
     if a["via"] == "deco":
         text = hdr + "@qlassf\n" + a["src"]
     elif a["via"] == "qlassfa":
-        text = hdr + "@qlassfa(defs=_defs, to_compile=_tc, uncompute=_un, bool_optimizer=_opt)\n" + a["src"]
+        text = hdr + f"@qlassfa(types={tlist}, defs=_defs, to_compile=_tc, uncompute=_un, bool_optimizer=_opt)\n" + a["src"]
     else:
         text = hdr + a["src"]
     with open(path, "w") as f:
@@ -815,7 +863,10 @@ def _compile_callable(op, a, objs, tmpdir):
     exec(code, mod.__dict__)
     f = mod.__dict__[name]
     if a["via"] == "plain":
-        return qlassf(f, defs=defs, to_compile=a["to_compile"], uncompute=a["uncompute"], bool_optimizer=_opt(a["opt"]))
+        kw = {}
+        if a.get("types"):
+            kw["types"] = [mod.__dict__[t] for t in a["types"]]
+        return qlassf(f, defs=defs, to_compile=a["to_compile"], uncompute=a["uncompute"], bool_optimizer=_opt(a["opt"]), **kw)
     return f
 
 
@@ -829,8 +880,6 @@ def do_op(op, objs, tmpdir):
         kw = dict(to_compile=a["to_compile"], uncompute=a["uncompute"], bool_optimizer=_opt(a["opt"]))
         if "compiler" in a:
             kw["compiler"] = a["compiler"]
-        if "types" in a:
-            kw["types"] = [_custom_type(t) for t in a["types"]]
         if a["via"] == "from_function":
             return QlassF.from_function(a["src"], defs=defs, **kw)
         return qlassf(a["src"], defs=defs, **kw)
@@ -1271,6 +1320,10 @@ def reference_for(plan, ctx, k, byid, table=None):
     cl = closure(byid, k)
     nops = norm_closure(byid, cl)
     key = digest([env_key(cfg), nops], 24)
+    if "canary" in byid[k] and cfg.get("ipykernel") and not any(o["kind"] == "bind" for o in nops):
+        # the table holds a notebook-marker variant only for closures that contain a bind (the marker
+        # is read by bind() alone); the same policy applies when references are forked (replay)
+        return None, None
     if table is not None:
         # batch mode: references come from the table computed up front, never from a fork here
         if key in table:
